@@ -4,7 +4,8 @@
 (* nodes answering by script (records of `vh-driver x01 run`): the result  *)
 (* must be one SchemaAgreement.Possible allows for that script, a timeout- *)
 (* type result must not come before the time is up, and the nodes are not  *)
-(* polled more often than once per interval.                               *)
+(* polled more often than once per interval.  The scripts are followed as  *)
+(* far as the recorded poll counts say the run got.                        *)
 (***************************************************************************)
 EXTENDS Naturals, Sequences, FiniteSets, Json, IOUtils, TLC
 Rec == ndJsonDeserialize(IOEnv.TRACE)
@@ -26,8 +27,13 @@ Poss(sc, k, L) ==
   ELSE IF Errors(sc, k) = {} THEN Poss(sc, k + 1, L)
   ELSE {<<"err", e>> : e \in Errors(sc, k) \cap Fatal} \cup (IF Errors(sc, k) \cap Transient # {} THEN Poss(sc, k + 1, L) ELSE {})
 Longest(sc) == CHOOSE m \in {Len(sc[n]) : n \in 1..Len(sc)} : \A n \in 1..Len(sc) : Len(sc[n]) <= m
+\* how far into the scripts the run really got: a loaded machine may fit fewer polls into the time-out than the scripts are long,
+\* and the result then reflects the last round polled (the rounds of two nodes may differ by one when the time runs out mid-round)
+MaxOf(S) == CHOOSE m \in S : \A x \in S : x <= m
+MinOf(S) == CHOOSE m \in S : \A x \in S : m <= x
+Reached(r, pick(_)) == LET p == pick({r.polls[n] : n \in 1..Len(r.polls)}) IN Min(Longest(r.script), IF p < 1 THEN 1 ELSE p)
 OK(r) ==
-  /\ <<r.kind, r.val>> \in Poss(r.script, 1, Longest(r.script))
+  /\ <<r.kind, r.val>> \in Poss(r.script, 1, Reached(r, MaxOf)) \cup Poss(r.script, 1, Reached(r, MinOf))
   /\ ((r.kind = "timeout" \/ (r.kind = "err" /\ r.val \in Transient)) => r.elapsed_ms >= r.timeout_ms - 5)       \* not before the time is up
   /\ \A n \in 1..Len(r.polls) : r.polls[n] <= (r.elapsed_ms \div r.interval_ms) + 2                               \* one poll per interval
   /\ (r.kind = "ok" => \A n \in 1..Len(r.polls) : r.polls[n] >= 1)
